@@ -131,3 +131,29 @@ Example C36_nonvacuous :
   canonicalize false [ex_3; ex_4; ex_2; ex_1] = [ex_4; ex_2; ex_3] /\
   canonicalize true [ex_3; ex_4; ex_2; ex_1] = [ex_4; ex_1; ex_2; ex_3].
 Proof. exact canon_example. Qed.
+
+(* ---------------- which tasks a Run visits does not depend on the history of the executor ---------------- *)
+From Coq Require Import Relations.Relation_Operators.
+
+(* in every state an executor can reach (any Runs before, any roots, any schedule), the tasks a Run
+   visits from completed roots over the recorded forward edges are exactly the tasks reachable from
+   the roots in the declared dependency graph *)
+Theorem C36_run_walk_is_dependency_closure : forall deps_of st roots, x_reachable deps_of st ->
+  (forall r, In r roots -> In r (x_done st)) ->
+  forall t, x_visited st roots t <-> d_reach deps_of roots t.
+Proof. exact x_walk_is_closure. Qed.
+Print Assumptions C36_run_walk_is_dependency_closure.
+
+(* so a Run on a warm executor visits the same tasks as the same Run on any other (e.g. fresh) executor *)
+Theorem C36_run_walk_history_independent : forall deps_of st1 st2 roots,
+  x_reachable deps_of st1 -> x_reachable deps_of st2 ->
+  (forall r, In r roots -> In r (x_done st1)) -> (forall r, In r roots -> In r (x_done st2)) ->
+  forall t, x_visited st1 roots t <-> x_visited st2 roots t.
+Proof. exact x_walk_history_independent. Qed.
+Print Assumptions C36_run_walk_history_independent.
+
+(* non-vacuity: tasks 0 and 1 both depend on 2; 2 is computed for 0, then 1 finds it memoised; a Run
+   of root 1 alone still visits 2 *)
+Example C36_nonvacuous_warm_history :
+  x_reachable ex_deps (fold_left x_apply ex_hist x_init) /\ x_visited (fold_left x_apply ex_hist x_init) [1%nat] 2%nat.
+Proof. split; [exact ex_hist_reachable | exact ex_hist_visits]. Qed.
